@@ -211,7 +211,18 @@ func main() {
 					paramTx(w.Accts[0], "pos/MaxValidators", []byte(`"7"`), "plain:"+digest([]byte(`"7"`)))
 				}
 				na := append(govTypes.ACL{}, acl...)
-				na.SetOwner(x, b.Addr)
+				// the ACL is a list and nothing rejects two pairs for one key: the FIRST pair names the
+				// owner (ACL.GetOwner, and the pair SetOwner rewrites).  One hand-over in three installs a
+				// trailing duplicate (A stays the owner, B is a decoy), one in three a leading duplicate
+				// (B shadows A); chosen from the tx counter so the PRNG stream of older runs is unchanged
+				switch entropy % 3 {
+				case 1:
+					na = append(na, govTypes.ACLPair{Key: x, Addr: b.Addr})
+				case 2:
+					na = append(govTypes.ACL{{Key: x, Addr: b.Addr}}, na...)
+				default:
+					na.SetOwner(x, b.Addr)
+				}
 				aclTx(aclOwner, na)
 				actors := []chain.Key{a, b}
 				if r.Bool() {
